@@ -17,13 +17,18 @@ from .common import (P, box, check_defined, evalf, load_sym, model_floats, not_c
 from .c08 import load_fluid_with_ufs
 
 
-def replay_facade(model, method="oil_FVF"):
+def replay_facade(model, method="oil_FVF", reassigned=False):
     import numpy as np
     from bluebonnet.fluids import Fluid
     from bluebonnet.fluids import gas, oil, water
     m = model_floats(model, ["T", "api", "gg", "rsi", "S", "Swi", "p0", "p1", "Tpc", "ppc"],
                      default=dict(T=200.0, api=35.0, gg=0.8, rsi=650.0, S=5.0, Swi=0.1, p0=1500.0, p1=3500.0, Tpc=-72.0, ppc=653.0))
-    f = Fluid(m["T"], m["api"], m["gg"], m["rsi"], m["S"], m["Swi"])
+    if reassigned:
+        # built for one fluid, then its public attributes are set to the witness' values (Fluid is a plain mutable dataclass)
+        f = Fluid(150.0, 28.0, 0.65, 400.0, 2.0, 0.2)
+        f.temperature, f.api_gravity, f.gas_specific_gravity, f.solution_gor_initial, f.salinity = m["T"], m["api"], m["gg"], m["rsi"], m["S"]
+    else:
+        f = Fluid(m["T"], m["api"], m["gg"], m["rsi"], m["S"], m["Swi"])
     p = np.array([m["p0"], m["p1"]])
     ref = {
         "water_FVF": lambda q: water.b_water_McCain(m["T"], q),
@@ -90,6 +95,22 @@ def job_facade(job):
             job.prove(f"facade/{name}==stand-alone correlation element-wise[path{k}]",
                       pr.pc + [T.b_or(*[not_close(got.d[j], ref(p.d[j]), abs_tol=Fraction(0)) for j in range(2)])], bound="2 pressures",
                       replay=(replay_facade, {"method": name}))
+    # the facade answers for the object's CURRENT attributes: an object built for one fluid whose public attributes are then
+    # reassigned must answer for the new values (nothing frozen at construction time)
+    old_vals = {k_: fresh(f"old_{k_}", pos=True) for k_ in ("T", "api", "gg", "rsi", "S")}
+    for name, (args, ref) in want.items():
+        def run_reassigned():
+            g = mod.Fluid(old_vals["T"], old_vals["api"], old_vals["gg"], old_vals["rsi"], old_vals["S"], vs["Swi"])
+            g.temperature, g.api_gravity, g.gas_specific_gravity, g.solution_gor_initial, g.salinity = T_, api, gg, rsi, S
+            return getattr(g, name)(*args)
+        for k, pr in enumerate(paths(job, run_reassigned, dom)):
+            rp = (replay_facade, {"method": name, "reassigned": True})
+            if pr.exc is not None:
+                job.prove(f"facade/{name} after reassigning the attributes raises[path{k}]", pr.pc, bound="2 pressures", replay=rp, note=repr(pr.exc)[:80])
+                continue
+            got = pr.value
+            job.prove(f"facade/{name} after reassigning the attributes==stand-alone correlation at the current attributes[path{k}]",
+                      pr.pc + [T.b_or(*[not_close(got.d[j], ref(p.d[j]), abs_tol=Fraction(0)) for j in range(2)])], bound="2 pressures", replay=rp)
     for k, pr in enumerate(paths(job, lambda: f.pressure_bubblepoint(), dom)):
         job.prove(f"facade/pressure_bubblepoint==stand-alone[path{k}]",
                   pr.pc + [not_close(pr.value, ufs["pressure_bubblepoint_Standing"](T_, api, gg, rsi), abs_tol=Fraction(0))], bound="-",
